@@ -156,6 +156,14 @@ def case(rng: Any, ctx: Ctx, index: int) -> None:
             return
         compare('C15.factory', f'{which}.create/unreduced', ref_f, f, tol * 2)
         compare('C15.factory', f'{which}.create/reduced', ref_f, f.reduce(), tol * 2)
+        # history: the factory result used as a factor of larger products keeps denoting the same operator afterwards
+        for side in ('left', 'right'):
+            try:
+                g = (f @ Rb) if side == 'left' else (Rb @ f)
+            except Exception:  # noqa: BLE001
+                continue
+            compare('C15.factory', f'{which}.create/product-as-{side}-factor', ref_f @ M['Rb'] if side == 'left' else M['Rb'] @ ref_f, g, tol * 3)
+            compare('C15.factory', f'{which}.create/after-use-as-{side}-factor', ref_f, f, tol * 2)
     guarded('C15.factory', j_factory)
 
     # 4. random chain of these operators with scalars and inert operators
